@@ -37,10 +37,20 @@ def layout(text):
     add("%}")
     where["sect1indent"] = (text, here()); add("    static const char *t_s1i = %s; static int l_s1i = __LINE__; %s" % (E, CM))
     add("%option noyywrap")
+    add("")
+    add("DEFX  [x-z]+")
     add("%%")
     add("%{")
     where["sect2decl"] = (text, here()); add("    static const char *t_s2 = %s; static int l_s2 = __LINE__; %s" % (E, CM))
     add("%}")
+    add("")
+    # a pattern continued over several lines (extended syntax), a definition use, blank lines: the lines that
+    # follow must still be located correctly
+    add("(?x: e |")
+    add("     f   /* comment */")
+    add("     g )    ;")
+    add("{DEFX}    ;")
+    add("")
     where["action"] = (text, here()); add("a    { g_s2 = t_s2; gl_s2 = l_s2; g_act = %s; gl_act = __LINE__; %s }" % (E, CM))
     add("b    {")
     add("       int k_[2] = {1, 1}; %s" % CM)
